@@ -604,6 +604,43 @@ def add_gpu_annotation_pairs(rnd: random.Random, trace: Dict[str, Any], p: float
     return n
 
 
+def mirror_annotations(rnd: random.Random, trace: Dict[str, Any], p: float = 0.6) -> int:
+    """Kineto mirrors a host user annotation (record_function) on the device: a `gpu_user_annotation` of the SAME name on the lane of
+    a stream (pid = device, tid = stream, no stream / correlation argument), spanning the kernels launched within the host
+    annotation.  Profiler-step annotations are not mirrored (as in the sample traces).  Appended after the existing events."""
+    ev = trace["traceEvents"]
+    xs = [e for e in ev if e.get("ph") == "X"]
+    launches = {}
+    for e in xs:
+        a = e.get("args")
+        if e.get("cat") in ("cuda_runtime", "cuda_driver") and isinstance(a, dict) and "correlation" in a:
+            launches.setdefault(a["correlation"], []).append(e)
+    kernels = [e for e in xs if e.get("cat") in ("kernel", "gpu_memcpy", "gpu_memset") and isinstance(e.get("args"), dict) and "correlation" in e["args"]]
+    n = 0
+    lanes: Dict[Any, List[tuple]] = {}
+    for A in [e for e in xs if e.get("cat") == "user_annotation" and not str(e.get("name", "")).startswith("ProfilerStep")]:
+        if rnd.random() > p:
+            continue
+        inside = []
+        for k in kernels:
+            for L in launches.get(k["args"]["correlation"], []):
+                if (L.get("pid"), L.get("tid")) == (A.get("pid"), A.get("tid")) and A["ts"] <= L["ts"] and L["ts"] + L["dur"] <= A["ts"] + A["dur"]:
+                    inside.append(k)
+        if not inside:
+            continue
+        k0 = min(inside, key=lambda k: k["ts"])
+        ts = k0["ts"]
+        end = max(max(k["ts"] + k["dur"] for k in inside), ts + 1)
+        lane = lanes.setdefault((k0["pid"], k0["tid"]), [])
+        if any(not (end <= c or d <= ts or (c <= ts and end <= d) or (ts <= c and d <= end)) for c, d in lane):
+            continue                      # the annotations of one lane nest or are disjoint
+        lane.append((ts, end))
+        ev.append({"ph": "X", "cat": "gpu_user_annotation", "name": A["name"], "pid": k0["pid"], "tid": k0["tid"], "ts": ts, "dur": max(1, end - ts),
+                   "args": {"External id": (A.get("args") or {}).get("External id", 0)}})
+        n += 1
+    return n
+
+
 def twin_thread(trace: Dict[str, Any], tid_offset: int = 50, stream_offset: int = 100, corr_offset: int = 10 ** 6) -> None:
     """Append a copy of the main host thread - same operators, same timestamps - as a second thread of the same process, with
     its own correlation ids and its own streams (two workers doing the same work in lockstep)."""
